@@ -1,4 +1,4 @@
-import Cpppo.Model.ClientRx
+import Cpppo.Model.ClientRxSpec
 /-! helper lemmas for the client receive model (C13) -/
 namespace Cpppo.ClientRx
 
@@ -290,16 +290,6 @@ theorem synchronous_end (P : Frame → Resp) (is : List Iss) (st : CSt) :
 
 /-! ### the segmentation of the input does not matter -/
 
-/-- the data blocks that arrive before the next EOF / silence -/
-def joinData : List Ev → Bytes
-  | .data bs :: evs => bs ++ joinData evs
-  | _ => []
-
-/-- the events from the next EOF / silence on -/
-def afterData : List Ev → List Ev
-  | .data _ :: evs => afterData evs
-  | evs => evs
-
 theorem joinData_afterData (evs : List Ev) : joinData (afterData evs) = [] := by
   induction evs with
   | nil => rfl
@@ -417,57 +407,10 @@ theorem harvestAll_congr (P : Frame → Resp) (is : List Iss) (st st' : CSt) (h 
 
 /-! ### a reply stream cut at byte offset `k` -/
 
-/-- the reply stream of a peer: its frames, one after the other -/
-def stream (fs : List Frame) : Bytes := fs.flatMap encodeFrame
-
-/-- how many frames lie wholly inside the first `k` bytes of the stream -/
-def whole : Nat → List Frame → Nat
-  | _, [] => 0
-  | k, f :: fs => if (encodeFrame f).length ≤ k then whole (k - (encodeFrame f).length) fs + 1 else 0
-
-/-- how many bytes of the frame that the cut falls into were delivered (0: the cut is between frames,
-or behind the end) -/
-def leftover : Nat → List Frame → Nat
-  | _, [] => 0
-  | k, f :: fs => if (encodeFrame f).length ≤ k then leftover (k - (encodeFrame f).length) fs else k
-
-/-- the (context, reply) records `collect` makes of a frame -/
-def colsOf (P : Frame → Resp) (f : Frame) : List Col :=
-  match P f with
-  | .replies ctx rs => rs.map fun r => (ctx, r)
-  | .error _ => []
-
-/-- the event that ends the delivered prefix: the connection is closed, or stays silent -/
-def termEv (closed : Bool) : Ev := if closed then .eof else .quiet
-
-/-- how `harvest` ends when the replies run out before the requests do -/
-def cutEnd (closed : Bool) (left : Nat) : HEnd :=
-  if left = 0 then .stopped false else if closed then .raised .rxerror else .stopped true
-
-/-- the frame parses to at least one reply -/
-def hasReplies : Resp → Bool
-  | .replies _ (_ :: _) => true
-  | _ => false
-
 theorem hasReplies_iff {x : Resp} : hasReplies x = true ↔ ∃ ctx r rs, x = .replies ctx (r :: rs) := by
   cases x with
   | replies ctx rs => cases rs <;> simp [hasReplies]
   | error e => simp [hasReplies]
-
-/-- every frame is well-formed and carries at least one reply -/
-def Served (P : Frame → Resp) (fs : List Frame) : Prop :=
-  ∀ f ∈ fs, f.WF ∧ hasReplies (P f) = true
-
-instance (P : Frame → Resp) (fs : List Frame) : Decidable (Served P fs) := by
-  unfold Served; infer_instance
-
-/-- reply `n` answers request `n` (context echoed, service = request | 0x80), as far as both exist -/
-def AllMatch (is : List Iss) (cs : List Col) : Prop := ∀ p ∈ is.zip cs, Matches p.1 p.2
-
-instance (is : List Iss) (cs : List Col) : Decidable (AllMatch is cs) := by
-  unfold AllMatch; infer_instance
-
-def mkRes (p : Iss × Col) : Res := { iss := p.1, ctx := p.2.1, rpy := p.2.2 }
 
 theorem take_stream_ge (f : Frame) (fs : List Frame) (k : Nat) (h : (encodeFrame f).length ≤ k) :
     (stream (f :: fs)).take k = encodeFrame f ++ (stream fs).take (k - (encodeFrame f).length) := by
@@ -573,14 +516,6 @@ theorem flatMap_take_drop {α β : Type} (g : α → List β) (l : List α) (m :
     l.flatMap g = (l.take m).flatMap g ++ (l.drop m).flatMap g := by
   rw [← List.flatMap_append, List.take_append_drop]
 
-/-- the delivered prefix, all of it buffered, then EOF or silence -/
-def cutState (fs : List Frame) (k : Nat) (closed : Bool) : CSt :=
-  { pend := [], buf := (stream fs).take k, evs := [termEv closed] }
-
-/-- how the result stream ends when the replies run out before the requests do -/
-def cutErr (closed : Bool) (left : Nat) : Err :=
-  if left = 0 then .incomplete else if closed then .rxerror else .incomplete
-
 theorem synchronous_cut (P : Frame → Resp) (closed : Bool) (is : List Iss) (fs : List Frame) (k : Nat)
     (st : CSt) (hst : flat st = flat (cutState fs k closed)) (hs : Served P fs)
     (hm : AllMatch is (fs.flatMap (colsOf P))) :
@@ -633,11 +568,6 @@ theorem leftover_total (fs : List Frame) (k : Nat) (h : (stream fs).length ≤ k
 
 /-! ### `connector.__init__` on a cut stream -/
 
-/-- a successful Register reply -/
-def IsRegister (reg : Frame) : Prop := reg.WF ∧ reg.status = 0 ∧ reg.cmd = cmdRegister
-
-instance (reg : Frame) : Decidable (IsRegister reg) := by unfold IsRegister; infer_instance
-
 /-- Registering on a connection that delivers the first `k` bytes of `reg :: fs` (all at once): it fails
 when the cut is inside the Register reply, and otherwise leaves the rest of the prefix to the operations. -/
 theorem connect_cut (reg : Frame) (fs : List Frame) (k : Nat) (closed : Bool) (hr : IsRegister reg) :
@@ -665,5 +595,56 @@ theorem connect_cut (reg : Frame) (fs : List Frame) (k : Nat) (closed : Bool) (h
       intro h; rw [h] at hk; simp at hk
     by_cases hk0 : k = 0 <;> cases closed <;>
       simp [connect, await, takeFrame_nil, htf, termEv, hemp, hk, hk0, hne]
+
+/-- `connector.__init__` sees only the bytes, not the blocks -/
+def ConnRel : Except ConnErr CSt → Except ConnErr CSt → Prop
+  | .ok st, .ok st' => flat st = flat st'
+  | .error e, .error e' => e = e'
+  | _, _ => False
+
+theorem connect_congr (evs evs' : List Ev) (hj : joinData evs = joinData evs')
+    (ha : afterData evs = afterData evs') : ConnRel (connect evs) (connect evs') := by
+  obtain ⟨a1, a2, a3, a4⟩ := await_flat [] evs
+  obtain ⟨b1, b2, b3, b4⟩ := await_flat [] evs'
+  rw [← hj, ← ha] at b1 b2 b3 b4
+  unfold connect
+  rcases hx : await [] evs with ⟨o, b, e⟩
+  rcases hy : await [] evs' with ⟨o', b', e'⟩
+  rcases hz : await ([] ++ joinData evs) (afterData evs) with ⟨o'', b'', e''⟩
+  rw [hx, hz] at a1 a2 a3 a4
+  rw [hy, hz] at b1 b2 b3 b4
+  simp only at a1 a2 a3 a4 b1 b2 b3 b4
+  subst a1
+  subst b1
+  cases o' with
+  | frame f =>
+    dsimp only
+    by_cases hs : f.status ≠ 0
+    · simp [hs, ConnRel]
+    · by_cases hc : f.cmd ≠ cmdRegister
+      · simp [hs, hc, ConnRel]
+      · simp only [hs, hc, if_false, ConnRel, flat]
+        rw [a2, a3, ← b2, ← b3]
+  | stop => simp [ConnRel]
+  | timeout =>
+    have h1 := a4 rfl
+    have h2 := b4 rfl
+    subst h1; subst h2
+    dsimp only
+    split <;> simp [ConnRel]
+  | rxerror => simp [ConnRel]
+
+/-- the whole exchange depends only on the bytes that arrive before each EOF / silence -/
+theorem exchange_congr (P : Frame → Resp) (depth : Nat) (issued : List Iss) (evs evs' : List Ev)
+    (hj : joinData evs = joinData evs') (ha : afterData evs = afterData evs') :
+    exchange P depth issued evs = exchange P depth issued evs' := by
+  have h := connect_congr evs evs' hj ha
+  unfold exchange
+  cases h1 : connect evs <;> cases h2 : connect evs' <;> rw [h1, h2] at h <;> simp only [ConnRel] at h
+  · rw [h]
+  · dsimp only
+    rw [pipeline_eq, pipeline_eq, synchronous_fst, synchronous_fst, synchronous_end, synchronous_end]
+    obtain ⟨e1, e2⟩ := harvestAll_congr P issued _ _ h
+    rw [e1, e2]
 
 end Cpppo.ClientRx
